@@ -77,6 +77,7 @@ type Ctx struct {
 	perClass   map[string]int
 	inconcl    int64
 	inconclWhy map[string]int64
+	sets       map[string]map[uint64]struct{} // named sets of observed states (exact union across children)
 	curCase    string
 	curK       *Case
 	progress   *os.File
@@ -111,6 +112,28 @@ func (c *Ctx) Max(name string, v int64) {
 	}
 	c.mu.Unlock()
 }
+
+// Observe adds a hash to a named set of observed things (model states, interleaving
+// signatures ...); the parent reports the exact cardinality of the union over all children
+// as coverage.observed_distinct[<set>].
+func (c *Ctx) Observe(set string, h uint64) {
+	c.mu.Lock()
+	if c.sets == nil {
+		c.sets = map[string]map[uint64]struct{}{}
+	}
+	m := c.sets[set]
+	if m == nil {
+		m = map[uint64]struct{}{}
+		c.sets[set] = m
+	}
+	if len(m) < 1<<20 {
+		m[h] = struct{}{}
+	}
+	c.mu.Unlock()
+}
+
+// ObserveStr is Observe over a string.
+func (c *Ctx) ObserveStr(set, s string) { c.Observe(set, HashStr(s)) }
 
 func (c *Ctx) addDistinct(h uint64) {
 	c.mu.Lock()
@@ -318,20 +341,29 @@ func (c *Ctx) runAll() {
 
 // childResult is what a child writes for its parent.
 type childResult struct {
-	Evals      int64            `json:"evals"`
-	Counters   map[string]int64 `json:"counters"`
-	Samples    map[string][]any `json:"samples"`
-	Violations []Violation      `json:"violations"`
-	NViol      int64            `json:"nviol"`
-	Inconcl    int64            `json:"inconclusive"`
-	InconclWhy map[string]int64 `json:"inconclusive_why"`
-	WallS      float64          `json:"wall_s"`
+	Sets       map[string][]uint64 `json:"sets,omitempty"`
+	Evals      int64               `json:"evals"`
+	Counters   map[string]int64    `json:"counters"`
+	Samples    map[string][]any    `json:"samples"`
+	Violations []Violation         `json:"violations"`
+	NViol      int64               `json:"nviol"`
+	Inconcl    int64               `json:"inconclusive"`
+	InconclWhy map[string]int64    `json:"inconclusive_why"`
+	WallS      float64             `json:"wall_s"`
 }
 
 func (c *Ctx) result(wall float64) *childResult {
 	c.mu.Lock()
 	defer c.mu.Unlock()
-	return &childResult{Evals: c.evals, Counters: c.counters, Samples: c.samples, Violations: c.violations,
+	sets := map[string][]uint64{}
+	for name, m := range c.sets {
+		l := make([]uint64, 0, len(m))
+		for h := range m {
+			l = append(l, h)
+		}
+		sets[name] = l
+	}
+	return &childResult{Sets: sets, Evals: c.evals, Counters: c.counters, Samples: c.samples, Violations: c.violations,
 		NViol: c.nviol, Inconcl: c.inconcl, InconclWhy: c.inconclWhy, WallS: wall}
 }
 
